@@ -31,12 +31,22 @@ pub fn preimage_of_key(k: u64) -> Vec<u8> {
     format!("k{k}").into_bytes()
 }
 
+/// Data id `k * 100` is the honest content of key `k` (the bytes that hash to its CID);
+/// every other id is arbitrary data.
 pub fn data_of_id(d: u64) -> Vec<u8> {
-    format!("data-{d}").into_bytes()
+    if d % 100 == 0 {
+        preimage_of_key(d / 100)
+    } else {
+        format!("data-{d}").into_bytes()
+    }
 }
 
 pub fn id_of_data(b: &[u8]) -> Option<u64> {
-    std::str::from_utf8(b).ok()?.strip_prefix("data-")?.parse().ok()
+    let s = std::str::from_utf8(b).ok()?;
+    if let Some(k) = s.strip_prefix('k') {
+        return k.parse::<u64>().ok().map(|k| k * 100);
+    }
+    s.strip_prefix("data-")?.parse().ok()
 }
 
 pub fn peer_of(p: u64) -> PeerId {
